@@ -232,6 +232,23 @@ CHECKS["C14"] = dict(
     note=TRUST + "Assumes sorted, duplicate-free frames. Not decided: exact value round trip dense->sparse->dense and "
          "exact overlap counts (they follow from the merge discipline only together with numpy/scipy semantics).")
 
+CHECKS["C08"] = dict(
+    category="other", design_ref="DESIGN.md section 3 / C08",
+    technique="CFG dominance / guard analysis and def-use of indexer.scorethem (ast), who-may-write rule for indexer.ubis, "
+              "try/finally pairing, polynomial value numbering of unitcell.BTmat (Python) against quickorient (C)",
+    text="Static, soundness half only: (R1) indexer.ubis grows only in scorethem under strict npk > self.minpks and "
+         "uniqueness > self.uniqueness; npk is self.score(<stored matrix>, float(self.hkl_tol)); matrix and count are "
+         "replaced together, by the same list entry, only under <new> >= npk; ga[ind], ubis, scores updated in one block, "
+         "label provably >= 0, ind = getind(<stored matrix>); (R2) pairs with a claimed peak or i == j never reach orient, "
+         "find() draws from ga == -1 of ring_1 / ring_2, one sentinel; (R3) do_index restores the OpenMP thread count in a "
+         "finally; (R4) crystal triad of BTmat and lab triad of quickorient are the same symbolic construction, first axis "
+         "along v1, third axis perpendicular to v2, det^2 == 1, product order BT.(u1;u2;u3), call-site wiring: hence "
+         "det(UBI) = det(B^-1) and UBI.g1 || h1; (R5) uniqueness is (#free among getind(UBI)) / (#getind(UBI)) and getind "
+         "selects with hkl_tol and returns the label it passed to the kernel.",
+    note=TRUST + "Thin partial claim. Not decided: that the refined matrix still indexes > minpks peaks after "
+         "score_and_refine, cell parameters within tolerance, sign of det(B), de-duplication up to lattice symmetry, and the "
+         "whole completeness half (every grain found exactly once on ideal data) - outcomes of a numerical search.")
+
 NOT_YET = {}
 
 NOT_APPLICABLE = {
